@@ -36,7 +36,7 @@ ASSUMPTIONS = ['loopback TCP is reliable']
 REQUIRED = ['oracle.client-exact', 'oracle.server-conservation', 'oracle.healthy-undisturbed',
             'oracle.msg-id-per-thread', 'oracle.non-interference', 'baton.switches',
             'oracle.simultaneous-refusals', 'oracle.local-title-per-call',
-            'oracle.simultaneous-retrieves', 'sim.overlapping-retrieves']
+            'oracle.simultaneous-retrieves', 'sim.overlapping-retrieves', 'oracle.slow-reader-left-alone']
 
 ROUNDS = {'quick': 24, 'thorough': 240}
 SIZES = {'quick': [16, 16, 4, 16, 24, 16, 8, 16], 'thorough': [4, 16, 16, 48, 16, 32, 8, 16]}
@@ -56,6 +56,8 @@ def plan(tier, seed):
         specs.append({'name': 'reject', 'index': k, 'n': [8, 16, 32, 12][k % 4]})
     for k in range(MOVE_ROUNDS[tier]):
         specs.append({'name': 'move', 'index': k, 'n': [4, 8, 16, 2][k % 4]})
+    for k in range(1 if tier == 'quick' else 6):
+        specs.append({'name': 'slow', 'index': k})
     nb = BATON_ROUNDS[tier]
     for part in range(8):
         specs.append({'name': 'baton', 'lo': part * nb // 8, 'hi': (part + 1) * nb // 8})
@@ -73,6 +75,10 @@ def run_shard(spec, tier, seed):
         from . import c20baton
         for k in range(spec['lo'], spec['hi']):
             c20baton.run_round(res, {'baton': True, 'round': k, 'seed': seed})
+        return res
+    if spec['name'] == 'slow':
+        from . import c20slow
+        c20slow.run_round(res, {'slow': True, 'round': spec['index'], 'seed': seed})
         return res
     if spec['name'] == 'move':
         from . import c20move
@@ -93,6 +99,10 @@ def replay(case):
     if case.get('baton'):
         from . import c20baton
         c20baton.run_round(res, case)
+        return res
+    if case.get('slow'):
+        from . import c20slow
+        c20slow.run_round(res, case)
         return res
     if case.get('move'):
         from . import c20move
